@@ -111,6 +111,32 @@ TRejected ==
   /\ closed' = TRUE /\ l' = l + 1
   /\ UNCHANGED << vars, tid >>
 
+\* ---- sessions: the user reconfigures the same objects between two runs
+TToggle ==
+  /\ HasEv("toggle")
+  /\ Toggle(Ev.g, Ev.m)
+  /\ l' = l + 1
+  /\ UNCHANGED << tid, closed >>
+
+TSetArgs ==
+  /\ HasEv("setargs")
+  /\ SetArgs(Ev.g, Ev.m, Ev.args)
+  /\ l' = l + 1
+  /\ UNCHANGED << tid, closed >>
+
+TResched ==
+  /\ HasEv("resched")
+  /\ Reschedule(Ev.times, Ev.start, Ev.nd)
+  /\ l' = l + 1
+  /\ UNCHANGED << tid, closed >>
+
+TRestart ==
+  /\ HasEv("restart")
+  /\ closed
+  /\ Restart
+  /\ closed' = FALSE /\ l' = l + 1
+  /\ UNCHANGED tid
+
 \* Diagnosis (second pass over rejected traces, DIAG set): print what the
 \* specification expected where the trace stopped matching.  Never enabled.
 Diag ==
@@ -130,7 +156,7 @@ Diag ==
   /\ FALSE
   /\ UNCHANGED << tid, l, closed >>
 
-TNext == Silent \/ TCall \/ TDone \/ TFailed \/ TRejected \/ Diag
+TNext == Silent \/ TCall \/ TDone \/ TFailed \/ TRejected \/ TToggle \/ TSetArgs \/ TResched \/ TRestart \/ Diag
 TSpec == TInit /\ [][TNext]_tvars
 
 Accepted == closed /\ l = Len(Traces[tid].events) + 1
